@@ -33,10 +33,10 @@ Partial, spelled out:
 * the served object's methods are *modelled* as lists of atomic segments of a deterministic
   object (DESIGN.md, C12 "Partial"); `&self` methods are assumed not to modify the object
   (`Obj.ReadOnly`, interior mutability is outside the model);
-* remote function calls (`rfn`) are instances of the same model (`RFn` = shared/spawn with
-  non-cancellable methods, `RFnMut` = by-mutable-reference/inline, `RFnOnce` = by-value) and are
-  exercised by the harness only through the trait machinery they share (`rch::oneshot` reply
-  channel per request).
+* remote function calls (`rfn`) have the same shape (request queue, fresh `rch::oneshot` reply
+  channel per request, provider loop: `RFn` = shared/spawn, `RFnMut` = inline (`inline_serial`),
+  `RFnOnce` = by-value, all without the `closed()` race); they are covered as instances of the
+  model, the harness exercises the trait machinery only.
 -/
 
 namespace Remoc.Rtc
@@ -132,6 +132,23 @@ theorem mut_runs_inline (cfg : Cfg) (s : State o) (h : Reachable cfg s) (c : Nat
     have := hs.excl c c' hc he' hk
     subst this
     exact hk (hs.spk c' hm).1
+
+/-- **Without `spawn` executions are serial** (`Server`, `ServerRef`, `ServerRefMut`, the shared
+flavours with `spawn = false`, and the provider loop of `RFnMut`, which has the same shape): at
+most one request executes at any time, whatever the kinds of the methods. -/
+theorem inline_serial (cfg : Cfg) (s : State o) (h : Reachable cfg s) (hns : spawns cfg .ref = false) (c c' : Nat)
+    (hc : (s.calls c).stage = .executing) (hc' : (s.calls c').stage = .executing) : c' = c := by
+  have hs := (inv_of_reachable cfg s h).st
+  have hrun : ∀ x, (s.calls x).stage = .executing → s.loop = .running x := by
+    intro x hx
+    rcases (hs.exec x).1 hx with h1 | h1
+    · exact h1
+    · have := (hs.spk x h1).2
+      rw [hns] at this; cases this
+  have h1 := hrun c hc
+  have h2 := hrun c' hc'
+  rw [h1] at h2
+  exact (Loop.running.inj h2).symm
 
 /-! ### linearizability -/
 
